@@ -1,15 +1,17 @@
 #!/bin/bash
 # usage: tools/seedrun.sh <seed-dir-name> <PROP> [extra args to ./check]
-# Applies /verif/seeded/<name>/patch.diff to /repo, runs ./check <PROP>, undoes the change.
+# Applies /verif/seeded/<name>/patch.diff to a scratch worktree of /repo (never to /repo itself), runs
+# ./check <PROP> against it with evidence / replay files redirected to a scratch directory, removes the worktree.
 set -u
 name=$1; prop=$2; shift 2
 cd /verif
-if ! git -C /repo diff --quiet; then echo "/repo has uncommitted changes; refusing"; exit 3; fi
-git -C /repo apply /verif/seeded/$name/patch.diff || { echo "patch does not apply"; exit 3; }
-./check $prop "$@" > /verif/out/seed_${name}_${prop}.log 2>&1
+wt=$(mktemp -d /tmp/seedwt.XXXXXX); rmdir $wt
+git -C /repo worktree add --detach $wt HEAD >/dev/null 2>&1 || { echo "cannot create worktree"; exit 3; }
+git -C $wt apply /verif/seeded/$name/patch.diff || { echo "patch does not apply"; git -C /repo worktree remove --force $wt; exit 3; }
+out=/verif/out/seedruns/${name}_${prop}; rm -rf $out; mkdir -p $out
+VERIF_REPO=$wt VERIF_OUT=$out ./check $prop "$@" > /verif/out/seed_${name}_${prop}.log 2>&1
 rc=$?
-git -C /repo checkout -- . 
-git -C /repo status --short | grep -v '^??' | head -3
+git -C /repo worktree remove --force $wt; git -C /repo worktree prune
 echo "seed=$name prop=$prop exit=$rc"
 grep -E "^VIOLATION|^KNOWN|^CHECK|INCONCLUSIVE" /verif/out/seed_${name}_${prop}.log | cut -c1-400 | head -12
 exit 0
